@@ -13,6 +13,7 @@ import Pongo.Model.Exec
 import Pongo.Model.ParseDoc
 import Pongo.Gen.PanicSites
 import Pongo.Gen.FilterFacts
+import Pongo.Lemmas.KeepsAll
 
 namespace Pongo.C01
 open Pongo
@@ -76,6 +77,40 @@ theorem empty_cycle_is_rejected (cfg : SetCfg) (fuel : Nat) (args : PS) (es : Li
       else pure (Node.tagCycle 0 es asName silent)) ≠ .ok node := by
   intro node
   simp [h, hrem, hes, bind, Except.bind]
+
+/-! ### the interpreter never takes a panicking branch
+
+The model marks with the error kind `.panic` the places where the Go code would panic (a lookup
+in an empty context stack).  By the interpreter-wide induction of `Lemmas/KeepsAll.lean` no
+execution reaches one: for every fuel, template, context and state. -/
+
+variable (T : LexTables) (cfg : SetCfg) (g : Env)
+
+/-- a whole execution — started with or without contexts on the stack — never fails with `.panic` -/
+theorem execution_never_panics (fuel ti : Nat) (ctx : Env) (σ σ' : ES) (e : XErr)
+    (h : (executeTpl T cfg g fuel ti ctx).run σ = .error e σ') : e.kind ≠ .panic := by
+  have := keepsAny_executeTpl T cfg g fuel ti ctx
+  unfold KeepsAny at this
+  have h1 := (this σ).1
+  rw [h] at h1
+  exact h1
+
+/-- nor does any single node or expression, from any state that has a current context -/
+theorem node_never_panics (fuel : Nat) (n : Node) (σ σ' : ES) (e : XErr) (hσ : σ.frames ≠ [])
+    (h : (execNode T cfg g fuel n).run σ = .error e σ') : e.kind ≠ .panic := by
+  have := (allKeeps T cfg g fuel).execNode n
+  unfold Keeps at this
+  have h1 := (this σ hσ).1
+  rw [h] at h1
+  exact h1
+
+theorem expression_never_panics (fuel : Nat) (x : Expr) (σ σ' : ES) (e : XErr) (hσ : σ.frames ≠ [])
+    (h : (eval T cfg g fuel x).run σ = .error e σ') : e.kind ≠ .panic := by
+  have := (allKeeps T cfg g fuel).eval x
+  unfold KeepsTop at this
+  have h1 := (this σ hσ).1
+  rw [h] at h1
+  exact h1
 
 /-! ### regenerated from `/repo`: what can panic by itself -/
 
